@@ -108,7 +108,7 @@ def confirm(src, offset=0, only=None):
             print(json.dumps({k: v for k, v in r.items() if k != "demo_patched_output"}))
 
 
-def run(ids, all_checks=False, tier="quick", examples=None):
+def run(ids, all_checks=False, tier="quick", examples=None, only_checks=None):
     props = [json.loads(l)["id"] for l in open(os.path.join(HERE, "properties.jsonl"))]
     man = json.load(open(os.path.join(HERE, "MANIFEST.json")))
     built = [c["property_id"] for c in man["checks"]]
@@ -119,6 +119,8 @@ def run(ids, all_checks=False, tier="quick", examples=None):
             continue
         meta = json.load(open(mp))
         checks = built if all_checks else [meta["property"]] if meta["property"] in built else []
+        if only_checks:
+            checks = only_checks
         with Worktree(os.path.join(d, "patch.diff")) as wt:
             if not wt.applied:
                 print(sid, "patch no longer applies")
@@ -156,9 +158,12 @@ if __name__ == "__main__":
         if "--examples" in args:
             ex = int(args[args.index("--examples") + 1])
         skip = set()
-        for flag in ("--tier", "--examples"):
+        only = None
+        if "--checks" in args:
+            only = args[args.index("--checks") + 1].split(",")
+        for flag in ("--tier", "--examples", "--checks"):
             if flag in args:
                 i = args.index(flag)
                 skip.update((i, i + 1))
         ids = [a for i, a in enumerate(args) if not a.startswith("--") and i not in skip]
-        run(ids, allc, tier, ex)
+        run(ids, allc, tier, ex, only)
